@@ -58,7 +58,7 @@ func RandOptions(r *fw.Rand) lab.Options {
 	o.Beacon = beacontypes.NewParams(fee(), fee(), fee(), bd, d, m)
 	vf := []string{"0", "0.000000000000000001", "0.01", "0.333333333333333333", "0.999999999999999999", "1", "0.24"}
 	o.Stream = streamtypes.Params{ValidatorFee: sdk.MustNewDecFromStr(vf[r.Intn(len(vf))])}
-	ids := []uint64{1, 1, 1000, 1<<32 + 5}
+	ids := []uint64{1, 1, 2, 3, 1000, 1<<32 + 5} // small ids other than 1: counters that are re-derived from counts collide soon
 	o.PoStartID = ids[r.Intn(len(ids))]
 	o.WrkStartID = ids[r.Intn(len(ids))]
 	o.BeaconStartID = ids[r.Intn(len(ids))]
@@ -253,7 +253,14 @@ func (g *Gen) BeaconRecordMsg(id uint64, owner lab.Acct) *beacontypes.MsgRecordB
 	if g.E.R.Chance(10) {
 		st = g.E.R.PickU64([]uint64{0, 1, 1 << 32, 1<<63 + 7, ^uint64(0)}) // 0 must be rejected (it would be replaced by the wall clock)
 	}
-	return &beacontypes.MsgRecordBeaconTimestamp{BeaconId: id, Hash: g.hash(g.hashLen()), SubmitTime: st, Owner: g.spell(owner, 8)}
+	h := g.hash(g.hashLen())
+	if g.E.R.Chance(15) { // the 0x notation clients use: well-formed hex of even length, bare "0x", odd length
+		h = "0x" + g.hash([]int{0, 2, 8, 64, 7}[g.E.R.Intn(5)])
+		if g.E.R.Chance(40) {
+			st = 0
+		}
+	}
+	return &beacontypes.MsgRecordBeaconTimestamp{BeaconId: id, Hash: h, SubmitTime: st, Owner: g.spell(owner, 8)}
 }
 
 // slots picks a purchase count around what is left to buy.
